@@ -3,7 +3,7 @@
    repairs fixes/C09-*.diff, C10-*.diff, C11-*.diff applied ([fixed]); Spec: Forkchoice/{TreeSpec,GhostSpec,Step}.v. *)
 From Coq Require Import NArith List.
 From V Require Import Base.U64 Base.Outcome Forkchoice.ProtoArray Forkchoice.Wrapper Forkchoice.TreeSpec Forkchoice.GhostSpec
-     Forkchoice.Step Forkchoice.TreeProofs Forkchoice.Refuted.
+     Forkchoice.Step Forkchoice.TreeProofs Forkchoice.WalkProofs Forkchoice.Refuted.
 Import ListNotations.
 Local Open Scope N_scope.
 
@@ -13,9 +13,10 @@ Definition C11_full : Prop := forall i ops, refines sel_c11 true i ops = true.
 (* False as it stands, also of the repaired code: known finding prune_keeps_late_fork (witness below). What is claimed: *)
 Definition C11_queries_refine : Prop := forall i ops, refines sel_c11 false i ops = true.
    (* = C11_full with the hypothesis "no update moves finalization to a node while a non-descendant inserted after it exists"
-      (Step.late_fork_at cuts the run there). NOT proved in full: proved below for all histories of insertions (the tree, the
-      lowest-slot table, ProcessBlock's answers); the walks (ClosestToSlot, InSubtree, CanonicalChain, CanonAtSlot, Search) and
-      histories with votes/updates/prunes are covered by the correspondence runs only. *)
+      (Step.late_fork_at cuts the run there). NOT proved in full: proved below for all histories of insertions: the tree, the
+      lowest-slot table, ProcessBlock's answers, ClosestToSlot, and the walks of CanonicalChain and CanonAtSlot relative to the head
+      the array computes. InSubtree's and Search's use of best-descendant links, the head itself (C09), and histories with
+      votes/updates/prunes are covered by the correspondence runs only. *)
 
 (* For EVERY history of ProcessSlot/ProcessBlock calls in the domain, on any array related to a tree (in particular a fresh one):
    the node table read as a list is exactly the Spec's tree (same nodes, parents, epochs), `indices` is its position table,
@@ -41,6 +42,48 @@ Print Assumptions C11_get_slot_refines.
 Theorem C11_membership_refines : forall pa r, Rel pa -> (known (abs pa) r = true <-> exists k, idx_get (pa_idx pa) r = Some k).
 Proof. intros pa r H. exact (Rel_known pa r H). Qed.
 Print Assumptions C11_membership_refines.
+
+(* C11_queries_refine_partial — hypothesis: the history consists of ProcessSlot/ProcessBlock calls in the domain on a fresh array
+   (no votes, updates, prunes), fewer than 2^64 nodes. Then the state reached satisfies the simulation relation Rel, the link
+   invariant Links (every node but the first carries the index of its tree parent, inserted before it), the tree is contiguous
+   per root and IS the Spec's tree; on every such state the three theorems after it hold for all arguments. *)
+Theorem C11_queries_refine_partial : forall parent r s je fe sn ops,
+  let pa0 := new_array parent r s je fe sn in
+  iops_dom ops (abs pa0) -> created (fst (impl_iops ops pa0)) < two64 ->
+  let pa := fst (impl_iops ops pa0) in
+  Rel pa /\ Links s pa /\ Contig (abs pa) /\ abs pa = fst (spec_iops ops (abs pa0)) /\
+  snd (impl_iops ops pa0) = map Ok (snd (spec_iops ops (abs pa0))).
+Proof. exact insert_history_invariants. Qed.
+Print Assumptions C11_queries_refine_partial.
+
+(* closest known node to a slot: the binary search = the Spec's scan, for every root and slot (known, unknown, before the
+   lowest slot, after the last) *)
+Theorem C11_closest_refines : forall pa a sl,
+  Rel pa -> Contig (abs pa) -> sl < two64 -> ClosestToSlot pa a sl = spec_closest (abs pa) a sl.
+Proof. exact ClosestToSlot_refines. Qed.
+Print Assumptions C11_closest_refines.
+
+(* canonical chain: whatever head the array's own FindHead answers (the head itself is C09's business), the chain returned is the
+   Spec's walk along transition parents from that node down to the root; the head computation leaves tree, Rel and Links intact *)
+Theorem C11_canonical_chain_walk_refines : forall s0 pa r s pa1 out,
+  Rel pa -> Links s0 pa -> created pa < two64 ->
+  CanonicalChain fixed r s pa = (pa1, Ok out) ->
+  exists h hn, fst (FindHead fixed r s pa) = pa1 /\ snd (FindHead fixed r s pa) = Ok h /\
+               find_node (abs pa) h = Some hn /\ out = spec_chain_from (abs pa) hn /\
+               Rel pa1 /\ Links s0 pa1 /\ abs pa1 = abs pa.
+Proof. exact CanonicalChain_walk_refines. Qed.
+Print Assumptions C11_canonical_chain_walk_refines.
+
+(* canonical node at a slot, the walking case (slot above the anchor root's lowest slot, below the head): the Spec's slot walk from
+   the head the array's FindHead answers, with and without block *)
+Theorem C11_canon_at_slot_walk_refines : forall s0 pa a lo sl wb pa1 h,
+  Rel pa -> Links s0 pa -> created pa < two64 ->
+  low (abs pa) a = Some lo -> lo < sl ->
+  FindHead fixed a lo pa = (pa1, Ok h) -> sl < snd h ->
+  exists hn, find_node (abs pa) h = Some hn /\
+             CanonAtSlot fixed a sl wb pa = (pa1, spec_canon_walk (abs pa) hn sl wb).
+Proof. exact CanonAtSlot_walk_refines. Qed.
+Print Assumptions C11_canon_at_slot_walk_refines.
 
 (* Defects of the pinned snapshot (model instance [pinned]) against the Spec and the repaired code; each history is also run
    on the Go code by the harness (directed histories) *)
